@@ -867,7 +867,9 @@ def main(argv):
             if " res=" not in l and "rc=-14" in l and exe:
                 # the per-case alarm counts wall time: on a loaded machine a case can be descheduled past it.  Run the
                 # case again on its own with a generous alarm before calling it a non-termination
-                pm = 19 if nd == "1" else 31
+                mu2 = mres["u"].get(c["id"], "")
+                pm = 19 if (nd == "1" or top_fp_vec(ty) or " res=2" in mu2 or " res=3" in mu2 or " res=9" in mu2
+                            or c["type"] in SHAPES) else 31
                 rc2, out2, err2 = sh([exe], input="%s D %s %d %s\n" % (c["id"], name, pm, c["hex"]), timeout=120,
                                      env=dict(env or os.environ, C11_ALARM="40"))
                 if rc2 == 0 and " res=" in out2:
